@@ -5,7 +5,8 @@ from ..gen import Opt, schema_lines, LIST, MULTI, TITLE, NO_TITLE_DUPES, NOCASE,
 
 THEOREMS = ["C01_eq_replaces", "C01_pluseq_appends", "C01_scalar_last_wins", "C01_bad_value_rejected", "C01_multi_accumulates",
             "C01_new_title_appends", "C01_repeated_title_replaces", "C01_unique_title_rejected", "C01_single_section_merges",
-            "C01_default_materialised", "C01_parse_eq", "C01_parse_pluseq", "C01_parse_pluseq_nonlist"]
+            "C01_default_materialised", "C01_parse_eq", "C01_parse_pluseq", "C01_parse_pluseq_nonlist",
+            "C01_frame_local", "C01_compositional", "C01_compositional_top"]
 PARTIAL = ("Proved: each clause of the statement as a law of the model's value store (what '=' / '+=' / repeated scalar / multi section / "
            "repeated title / unique titles / re-opened single section / defaults do), and what the token machine hands to the store on '=' and '+='. "
            "Not proved: the refinement of the whole 15-state token machine to an item-level denotation for all item lists and nesting depths "
